@@ -157,7 +157,7 @@ def run(chk):
     for _ in range(nrich):
         path = os.path.join(root, 'r%d.sqlite' % tid)
         db = dbl.connect(path)
-        kind = rnd.choice(['text', 'text', 'int', 'real', 'allnull', 'empty'])
+        kind = rnd.choice(['text', 'text', 'int', 'real', 'allnull', 'empty', 'datetime'])
         colname = rnd.choice(COLNAMES)
         try:
             if kind in ('text', 'allnull', 'empty'):
@@ -165,6 +165,21 @@ def run(chk):
                 vals = [None] * n if kind == 'allnull' else [rnd.choice(TEXT_ATTRS + [None]) for _ in range(n)]
                 sqltype = rnd.choice(['TEXT', 'VARCHAR'])
                 pert = [('max_length', 'x' * 60)] if any(v is not None for v in vals) else []
+            elif kind == 'datetime':
+                # timestamps with a time of day; the breaking row lies beyond the extreme but on the same calendar day
+                import datetime as _dt
+                day = _dt.datetime(2021, 3, rnd.randint(1, 27))
+                ts = [day - _dt.timedelta(days=rnd.randint(0, 3)) + _dt.timedelta(hours=rnd.randint(1, 20), minutes=rnd.randint(0, 59),
+                                                                                      seconds=rnd.randint(0, 59)) for _ in range(rnd.randint(1, 6))]
+                vals = [None if rnd.random() < 0.2 else t.strftime('%Y-%m-%d %H:%M:%S') for t in ts]
+                sqltype = rnd.choice(['DATETIME', 'TIMESTAMP'])
+                nn = [t for t, v in zip(ts, vals) if v is not None]
+                if nn and rnd.random() < 0.5:
+                    pert = [('max', (max(nn) + _dt.timedelta(minutes=rnd.randint(1, 170))).strftime('%Y-%m-%d %H:%M:%S'))]
+                elif nn:
+                    pert = [('min', (min(nn) - _dt.timedelta(seconds=rnd.randint(1, 3000))).strftime('%Y-%m-%d %H:%M:%S'))]
+                else:
+                    pert = []
             elif kind == 'int':
                 vals = [rnd.choice([-5, 0, 3, 2**40, None]) for _ in range(rnd.randint(1, 6))]
                 sqltype = 'INTEGER'
